@@ -42,15 +42,20 @@ def script_pool():
     """script-level only: default arguments, two-argument cookie, out-of-range codes"""
     return op_pool() + [["header", "x-a", "3"], ["redirect0", "/t"], ["nocontent0"], ["success0"], ["error0"],
                         ["cookie2", "sid", "7"], ["cookieopt", "sid", "7"], ["cookieopt2", "t", "x9"], ["badstatus", "status", 0], ["badstatus", "writeHeader", 1000],
-                        ["badstatus", "noContent", 99]]
+                        ["badstatus", "noContent", 99],
+                        ["file", "html", ""], ["file", "json", "d.json"], ["file", "zzz", 'q"x.bin'], ["filemissing", "nofile"], ["filemissing", "dir"]]
 
 
 def rand_op(rng, script=False):
     kinds = ["status", "status", "header", "header", "cookie", "write", "write", "html", "json",
              "redirect", "nocontent", "writeheader", "htmlwith", "formatted"]
     if script:
-        kinds += ["redirect0", "nocontent0", "success0", "error0", "cookie2", "cookieopt", "cookieopt2", "badstatus"]
+        kinds += ["redirect0", "nocontent0", "success0", "error0", "cookie2", "cookieopt", "cookieopt2", "badstatus", "file", "filemissing"]
     k = rng.choice(kinds)
+    if k == "file":
+        return [k, rng.choice(["html", "json", "zzz"]), rng.choice(["", "", "d.txt", 'q"x.bin'])]
+    if k == "filemissing":
+        return [k, rng.choice(["nofile", "dir"])]
     if k == "redirect0":
         return [k, rng.choice(URLS)]
     if k in ("nocontent0", "success0", "error0"):
@@ -116,7 +121,7 @@ def coq_op(o):
         return "OCookie %s" % coq_string(o[1] + "=" + o[2] + "; Path=/x; Max-Age=60; HttpOnly")
     if k == "cookieopt2":
         return "OCookie %s" % coq_string(o[1] + "=" + o[2] + "; Path=/x; Secure")
-    if k in ("badstatus", "formatfail"):
+    if k in ("badstatus", "formatfail", "filemissing"):
         return "ORefused"
     raise ValueError(k)
 
@@ -138,8 +143,22 @@ def coq_obs(obs):
         obs["wh"], coq_z(obs["code"]), hdr, coq_string(obs["body"]))
 
 
+FILES = {"html": ("text/html; charset=utf-8", "<p>f</p>"), "json": ("application/json", "{\"f\":1}"),
+         "zzz": ("application/octet-stream", "zz")}
+
+
 def coq_ops(ops):
-    return coq_list(coq_op(x) for x in ops)
+    if not any(x[0] == "file" for x in ops):
+        return coq_list(coq_op(x) for x in ops)
+    segs = []
+    for x in ops:
+        if x[0] == "file":   # Model.send_file: two headers, then the content as one write
+            ct, body = FILES[x[1]]
+            name = (x[2] or "f." + x[1]).replace('"', "_")
+            segs.append("send_file %s %s %s" % (coq_string(ct), coq_string('attachment; filename="%s"' % name), coq_string(body)))
+        else:
+            segs.append("[%s]" % coq_op(x))
+    return "(List.concat %s)" % coq_list(segs)
 
 
 def coq_scase(c, obs):
@@ -268,7 +287,7 @@ def coq_case(ops, obs):
                    for k, vs in sorted((obs.get("hdr") or {}).items()))
     o = "{| o_wh := %d; o_code := %s; o_hdr := %s; o_body := %s |}" % (
         obs["wh"], coq_z(obs["code"]), hdr, coq_string(obs["body"]))
-    return "(%s, %s)" % (coq_list(coq_op(x) for x in ops), o)
+    return "(%s, %s)" % (coq_ops(ops), o)
 
 
 def run_impl(binary, cases):
